@@ -305,6 +305,9 @@ EXTRA5["C20"] = (" Fifth session: the default-area branch of biot_savart_2d (are
                  "triangulation is of the given positions (in metres), the mesh is built from THESE positions and THAT triangulation, the kernel gets its cell areas as they are. On the pinned tree the "
                  "branch raised for every input (x and y columns handed over as two arguments): genuine defect, repaired by fix: commit 30f551c. Natives: areas=None against explicit cell areas; "
                  "2600 points at different heights in one call = in pieces = in reversed order (potential of the currents, field).")
+EXTRA5["C20"] += (" The kernel of 1-D current elements (_biot_savart_1d_vector) and its wrapper biot_savart are under contract: the real kernel source runs with real numpy on object arrays of symbolic reals "
+                  "for 2 evaluation points and 3 elements (plain double loop, every pair treated alike): B = mu0/4pi sum_k I_k dl_k x r / |r|^3 component by component for all values, inputs not written, wrapper hands "
+                  "its arguments over unchanged and labels tesla; bounded in the two loop counts, unbounded in the values; native against a direct sum.")
 EXTRA5["C18"] += " Native: small finely sampled shapes 1e3 .. 5e4 from the origin keep area and vertex count under translation / rotation."
 EXTRA5["C07"] += " get_voronoi_polygon_indices is under contract (polygon of site i = stored adjacency values of row i minus one, entry by entry, one polygon per site in site order, adjacency of these elements; rows of symbolic length; with the adjacency contract: the triangles that contain site i); native brute force."
 EXTRA5["C07"] += " The bounded family includes a device laid out 5e5 coherence lengths from the origin."
